@@ -804,3 +804,18 @@ Example C01_new_context_nonvacuous :
                              at_napool := AvAbsent; at_pdpool := AvAbsent |}) = Some (Pfx (Some (V6, pd_net ex_pd)) 72 128).
 Proof. vm_compute. repeat split; reflexivity. Qed.
 Print Assumptions C01_new_context_nonvacuous.
+
+(* the IPv6 half of NewContext: "ipv6_address" (net.ParseIP), "ipv6_prefix" (net.ParseCIDR: the masked network
+   with its CIDR mask; None when the text is no CIDR), "iana_pool" / "pd_pool" overrides; with C01_resolve6_stakes_its_answer
+   whatever of these the context carries after a ResolveV6 that did not return nil is staked for the session *)
+Theorem C01_new_context6 :
+  forall pf vrf at6,
+    let cx := new_context6 pf vrf at6 in
+    c6_pf cx = pf /\ c6_vrf cx = vrf /\ c6_napool cx = None /\ c6_pdpool cx = None /\
+    (forall b, c6_na cx = Some b <-> pf <> 0 /\ exists a, at_v6 at6 = AvStr (Some a) /\ b = go_parse_ip a) /\
+    (forall p, c6_pd cx = Some p <->
+               pf <> 0 /\ exists a len, at_pd at6 = AvStr (Some (a, len)) /\ go_parse_cidr a len = Some p) /\
+    c6_naov cx = (if N.eqb pf 0 then 0 else match at_napool at6 with AvStr n => n | _ => 0 end) /\
+    c6_pdov cx = (if N.eqb pf 0 then 0 else match at_pdpool at6 with AvStr n => n | _ => 0 end).
+Proof. exact new_context6_fields. Qed.
+Print Assumptions C01_new_context6.
